@@ -178,6 +178,22 @@ sys.path.insert(0, sys.argv[1])
 from Reduino.transpile.parser import parse
 from Reduino.transpile.emitter import emit
 import Reduino.transpile.parser as P
+import Reduino.transpile.emitter as Em
+import Reduino.transpile.ast as IR
+import copy
+def snapshot():
+    snap = {}
+    for m in (P, Em, IR):
+        for k, v in vars(m).items():
+            if k == "_VERIF_SKIP_LOG" or k.startswith("__"):
+                continue
+            if isinstance(v, (dict, list, set, frozenset, tuple)):
+                try:
+                    snap[m.__name__ + "." + k] = copy.deepcopy(v)
+                except Exception:
+                    pass
+    return snap
+state0 = snapshot()
 sys.addaudithook(hook)
 src = open(sys.argv[2], encoding="utf-8", errors="surrogateescape").read()
 env0 = dict(os.environ)
@@ -198,6 +214,8 @@ except BaseException as e:
     tb = traceback.extract_tb(e.__traceback__)
     res = {"outcome": "crash:" + type(e).__name__, "msg": str(e)[:200], "where": tb[-1].name if tb else "?"}
 ARMED[0] = False
+state1 = snapshot()
+res["state_changed"] = sorted(k for k in set(state0) | set(state1) if k not in state0 or k not in state1 or state0[k] != state1[k])
 res["events"] = events
 res["env_changed"] = dict(os.environ) != env0
 res["secs"] = round(time.time() - t0, 3)
@@ -229,6 +247,10 @@ VALID_PYTHON = [
     "x = " + "+".join(["1"] * 200) + "\n", "x = " + "(" * 40 + "1" + ")" * 40 + "\n", "x = -(-(-(-1)))\n", "x = 2 ** 10 ** 2\n", "x = 1 << 64\n", "x = 'a' * 1000\n",
 ]
 
+# literal-only expressions on which the transpile-time evaluator meets a Python TypeError / ZeroDivisionError / OverflowError:
+# the transpiler may accept (emit the expression) or reject with ValueError, never crash with another exception
+CONFUSED = ["1 << 1.0", "3 & 1.5", "-'250'", "1 < 'a'", "max(1, 'a')", "[250]", "(100, 150)", "'a' * 'b'", "1 % 'x'", "abs('x')", "len(5)", "int('x')", "1 / 0", "5 % 0",
+            "2 ** 0.5 ** 'a'", "not [] + 1", "'a' + 1", "min()", "float('nan') < ''", "1 if 'a' < 1 else 2", "~1.5", "+'x'", "-[1]", "10 ** 400 * 1.0", "str(1) - 1", "bool([]) + ''"]
 KNOWN_SLOW = [("x = 9**9**9\n", "eval:pow-bomb"), ("x = 1 << (10**9)\n", "eval:shift-bomb"), ("x = " + "+".join(["1"] * 3000) + "\n", "eval:deep-recursion")]
 
 
@@ -270,6 +292,15 @@ def run(ctx: Ctx) -> int:
         hh = h.format(canary=str(canary))
         for pos in (POSITIONS if ctx.tier == "thorough" or ctx.broken else rng.sample(POSITIONS, 8)):
             inputs.append(("hostile", scripts_pool.HEADER + pos.replace("{h}", hh), None))
+    for h in CONFUSED:
+        for pos in POSITIONS:
+            inputs.append(("confused-literal", scripts_pool.HEADER + pos.replace("{h}", h), None))
+            for wrap in ("while True:\n", "if True:\n", "def fn():\n", "for i in range(2):\n"):
+                if rng.random() < (1.0 if ctx.tier == "thorough" else 0.15):
+                    inputs.append(("confused-literal", scripts_pool.HEADER + wrap + "".join("    " + l + "\n" for l in pos.replace("{h}", h).splitlines()), None))
+    for nm in ("len", "abs", "max", "min", "int", "float", "bool", "str", "range", "sleep", "print", "HIGH", "OUTPUT"):
+        inputs.append(("shadowing", scripts_pool.HEADER + f"def {nm}(a, b):\n    return a + b\nx = {nm}(1, 2)\nsleep(max(100, 250))\n", None))
+        inputs.append(("shadowing", scripts_pool.HEADER + f"{nm} = 5\ny = {nm} + 1\nsleep(abs(-20))\n", None))
     for v in VALID_PYTHON:
         inputs.append(("python", scripts_pool.HEADER + v, None))
     for p in sorted((common.SRC / "Reduino").rglob("*.py"))[:12]:
@@ -315,6 +346,8 @@ def run(ctx: Ctx) -> int:
             canary.unlink()
         if bad_events or r.get("env_changed"):
             ctx.fail("exec:side-effect", f"audit events during transpilation: {bad_events[:3]} env_changed={r.get('env_changed')}", replay)
+        if r.get("state_changed"):
+            ctx.fail("state:module-level-mutated", f"transpiling this input changed module-level state that later transpiles read: {r['state_changed'][:4]}", replay)
         o = r["outcome"]
         if o == "timeout":
             ctx.fail(key or "eval:timeout", "transpilation did not terminate within the limit", replay)
